@@ -133,7 +133,7 @@ func encodeFor(w *World, property, fnFilter string) ([]*Enc, []*Obligation) {
 		fn := w.fnByKey[k]
 		if fn == nil {
 			// contract for a function that does not exist (any more)
-			e := &Enc{w: w, c: c, key: k, ordinals: map[string]int{}, declSet: map[string]bool{}}
+			e := &Enc{Script: &Script{ordinals: map[string]int{}, declSet: map[string]bool{}, mems: map[string]MemRef{}}, w: w, c: c, key: k}
 			e.curReach = "true"
 			ob := &Obligation{Name: k + "#exists", Kind: "exists", Props: c.Props, Fn: k, Text: "function under contract must exist in the current tree", Status: "failed", Output: "no function " + k + " in the current tree", enc: e}
 			e.obls = append(e.obls, ob)
